@@ -44,6 +44,31 @@ def ordered(effects):
     return list(flat(effects))
 
 
+def _only_for_zero(conds, want):
+    """can this path (conditions with their polarity) be taken only when the requested size is 0?  The conditions that compare
+    the size with literals are evaluated at every non-zero breakpoint (c-1, c, c+1) and at the ends of the size_t range: the
+    path must be infeasible at each of them; conditions on anything else are ignored (they can only restrict the path further)."""
+    from sa.secretflow import eval_term
+    cuts = set()
+    for c, _pol, _l in conds:
+        for st_ in sym.subterms(c):
+            if isinstance(st_, tuple) and st_ and st_[0] == "op" and st_[1] in ("<", "<=", ">", ">=", "==", "!=") and want in (st_[2], st_[3]):
+                o = st_[3] if st_[2] == want else st_[2]
+                if o[0] == "int":
+                    cuts.add(o[1])
+    pts = sorted(x for x in ({c + d for c in cuts for d in (-1, 0, 1)} | {1, 2, 2 ** 31, 2 ** 63, 2 ** 64 - 1}) if x > 0)
+    for x in pts:
+        feasible = True
+        for c, pol, _l in conds:
+            val = eval_term(c, {want: x})
+            if val is not None and bool(val) != bool(pol):
+                feasible = False
+                break
+        if feasible:
+            return False
+    return True
+
+
 def run(chk):
     prog = Program()
     chk.explanation = (
@@ -238,7 +263,9 @@ def run(chk):
                         else:
                             problems.append("a path fills the buffer through %s at line %s, which reports a short read "
                                             "neither by a stream failure nor by a count" % (nm, x["l"]))
-                if filled is None and not problems:
+                if filled is None and not problems and _only_for_zero(conds, want):
+                    accepted.add("no read when zero bytes are requested")
+                elif filled is None and not problems:
                     problems.append("a normally returning path (conditions %s) performs no read at all" % (
                         ", ".join("%s%s" % ("" if pol else "!", sym.show(c)) for c, pol, _ in conds) or "none"))
                 elif filled:
